@@ -82,7 +82,12 @@ def vector_kernels(pyx: bool):
         ("v3bool", "Vec3.__bool__", [A]),
         ("v2bool", "Vec2.__bool__", [A2]),
         ("v2rmul", "Vec2.__rmul__", [A2, ("factor" if pyx else "other", "rat", "k")]),
-    ]
+        # growth round 2: the (clamped) cosine handed to acos by angle_between; rotate with atan2 as a polar angle
+        ("v3cosBetween", "Vec3.angle_between", [A, B]),
+        ("v2cosBetween", "Vec2.angle_between", [A2, B2]),
+        ("v3rotate", "Vec3.rotate", [A, ("angle", "angle")]),
+        ("v2rotate", "Vec2.rotate", [A2, ("angle", "angle")]),
+    ] + ([] if pyx else [("v3rotateDeg", "Vec3.rotate_deg", [A, ("angle", "angle")]), ("v2rotateDeg", "Vec2.rotate_deg", [A2, ("angle", "angle")])])
     out = [(n, q, p, {}) for n, q, p in k]
     # constructor decoding (`Vec3.decompose` / the Cython `__cinit__` are written independently) and from_angle:
     # Python EXPRESSIONS executed by the symbolic executor
@@ -166,6 +171,8 @@ def matrix_kernels(pyx: bool):
         ("get2d", "Matrix44.get_2d_transformation", [M], {}),
         ("getRow", None, [("m", "m44")], {"expr": "(m.get_row(0), m.get_row(1), m.get_row(2), m.get_row(3))"}),
         ("getCol", None, [("m", "m44")], {"expr": "(m.get_col(0), m.get_col(1), m.get_col(2), m.get_col(3))"}),
+        ("perspective", "Matrix44.perspective_projection", [(n_, "rat") for n_ in ("left", "right", "top", "bottom", "near", "far")], {}),
+        ("perspectiveFov", "Matrix44.perspective_projection_fov", [("fov", "angle"), ("aspect", "rat"), ("near", "rat"), ("far", "rat")], {}),
         ("isCartesian", "Matrix44.is_cartesian", [M], {}),
         ("isOrthogonal", "Matrix44.is_orthogonal", [M], {}),
     ]
@@ -225,6 +232,11 @@ def ucs_state_kernels(pyx: bool):
         E("ucsSeqMovetoToOcs", "(ucs.to_ocs(q), ucs.moveto(o).to_ocs(p))[1]", [UCS_E, q, o_, p]),
         E("ucsSeqShiftToWcs", "(ucs.to_wcs(q), ucs.from_wcs(q), ucs.shift(d).to_wcs(p))[2]", [UCS_E, q, d, p]),
         E("ocsSeqRoundtrip", "ocs.to_wcs(ocs.from_wcs(p))", [OCS_E, p]),
+        # growth round 2: the batch forms of OCS (Vec3.generate over the list parameter is the list: c11ext.list_identity)
+        ("ocsPointsToWcs", "OCS.points_to_wcs", [("self", OCS_OBJ), ("points", ("list", "v3"), "ps")], {}),
+        ("ocsPointsFromWcs", "OCS.points_from_wcs", [("self", OCS_OBJ), ("points", ("list", "v3"), "ps")], {}),
+        # the direction vector whose polar angle to_ocs_angle_rad / to_ocs_angle_deg return
+        E("ucsToOcsAngleVec", "ucs.ucs_direction_to_ocs_direction(Vec3.from_angle(t))", [UCS_E, ("t", "angle")]),
         # ---- factories that return NEW objects: the six axis/point constructors, the four rotations
         ("ucsIsCartesian", "UCS.is_cartesian", [("self", UCS_OBJ)], {}),
     ]
@@ -367,7 +379,7 @@ def ucs_kernels():
 
 def regenerate(ctx):
     from translate.py2lean import Program, translate, lean_file
-    from translate.c11ext import angle_truth
+    from translate.c11ext import angle_truth, list_identity, acos_argument, polar_angles
 
     def read(rel):
         try:
@@ -408,8 +420,12 @@ def regenerate(ctx):
             defs, extra = [], ""
             for lean_name, qual, params, kw in kernels:
                 try:
-                    with angle_truth():
-                        d = translate(prog, path, qual, params, lean_name=lean_name, **kw)
+                    with angle_truth(), list_identity(), acos_argument():
+                        if lean_name in ("v3rotate", "v2rotate", "v3rotateDeg", "v2rotateDeg", "perspectiveFov"):
+                            with polar_angles():
+                                d = translate(prog, path, qual, params, lean_name=lean_name, **kw)
+                        else:
+                            d = translate(prog, path, qual, params, lean_name=lean_name, **kw)
                 except Exception as e:  # noqa
                     # the kernel left the translatable subset: every OTHER kernel is still regenerated from the current source
                     # (so that no Gen file keeps definitions of an earlier tree); the missing definition breaks the theorems
@@ -458,6 +474,9 @@ TRUSTED_BASE = [
     "CPython math.isclose / abs semantics (pyIsclose, pyAbs in Model/Rat3.lean); libm sin/cos/tan/sqrt enter as parameters",
     "Cython semantics of the pre-pass: `cdef double[16] a = b` copies, `cdef double *a = b` aliases, C-array attribute "
     "assignment copies, float division by zero raises ZeroDivisionError (cdivision off)",
+    "translate/c11ext.py (growth round 2): Vec3.generate over a list parameter of Vec3 is the list (Vec3(v) = v: vec_ctor_spec); acos returns its "
+    "argument (kernel = the value handed to acos); atan2(y, x) is a polar angle with cos = x/r, sin = y/r, r = hypot (atan2(0,0) = 0), "
+    "angle sums expand by the addition theorems, constant factors/divisors keep the symbolic angle: real-analysis identities, exercised by X2",
     "instance_attrs(): the instance state of UCS/OCS is the set of attributes assigned on `self` in the class body (AST); property "
     "setters are not state, setattr() is rejected; state smuggled through other channels (globals, closures) is not seen",
 ]
@@ -468,11 +487,12 @@ ASSUMPTIONS = [
 ]
 OPEN = [
     "np.linalg.inv singularity detection near (not at) singular matrices; float rounding bounds",
-    "angle / angle_between / rotate / to_ocs_angle_* (atan2, acos) numerics: oracle only",
-    "OCS.points_to_wcs / points_from_wcs (Vec3.generate over a symbolic list is outside the translator subset): oracle batch = single",
-    "is_cartesian for non-unit frames and its negative direction (left-handed => False): correspondence only",
+    "angle / angle_about / spatial_angle and the final atan2 of to_ocs_angle_*; the acos of angle_between (only the clamp logic "
+    "before it is proved): oracle / correspondence through the cosine",
+    "rotate_deg of the Cython twin (multiplication by a C constant, then rotate): corresponded through rotate",
+    "is_cartesian band for non-unit frames (proved: rigid right-handed => True, rigid left-handed => False; is_orthogonal: exact band)",
     "NumPy forms of the Python twin (products, inverse, determinant, UCS.transform, basic_transformation): textbook stand-ins + correspondence",
-    "perspective matrices; linalg.py solvers (not part of the property statement)",
+    "linalg.py solvers (not part of the property statement)",
 ]
 
 MAGS = [-40, -20, -8, -2, 0, 2, 8, 20, 40]
@@ -584,6 +604,15 @@ def impl_value(tw: Twin, kernel: str, a: list, ucsmod=None) -> str:
         if k == "v2ctorV2": return _ok(V2(v2(a[0])))
         if k == "v3fromAngle": return _ok(V3.from_angle(float(Fr(a[3])), float(Fr(a[2]))))  # a = [c, s, k, angle]
         if k == "v2fromAngle": return _ok(V2.from_angle(float(Fr(a[3])), float(Fr(a[2]))))
+        if k == "v3cosBetween": return _ok([math.cos(v3(a[0]).angle_between(v3(a[1])))])
+        if k == "v2cosBetween": return _ok([math.cos(v2(a[0]).angle_between(v2(a[1])))])
+        if k == "v3rotate": return _ok(v3(a[0]).rotate(float(Fr(a[3]))))  # a = [v, c, s, angle]
+        if k == "v2rotate": return _ok(v2(a[0]).rotate(float(Fr(a[3]))))
+        if k == "v3rotateDeg": return _ok(v3(a[0]).rotate_deg(math.degrees(float(Fr(a[3])))))
+        if k == "v2rotateDeg": return _ok(v2(a[0]).rotate_deg(math.degrees(float(Fr(a[3])))))
+        if k == "perspective": return _ok(M.perspective_projection(*parse_list(a[0])))
+        if k == "perspectiveFov":  # a = [aspect, near, far, tan(fov/2), fov]
+            return _ok(M.perspective_projection_fov(float(Fr(a[4])), float(Fr(a[0])), float(Fr(a[1])), float(Fr(a[2]))))
         if k == "v3bool": return "ok " + _b(bool(v3(a[0])))
         if k == "v2bool": return "ok " + _b(bool(v2(a[0])))
         if k == "v2rmul": return _ok(float(Fr(a[1])) * v2(a[0]))
@@ -674,10 +703,12 @@ def impl_value(tw: Twin, kernel: str, a: list, ucsmod=None) -> str:
         if k == "ocsInit":
             o = U.OCS(v3(a[0]))
             return _ok(o.matrix if o.transform else M(), tag=_b(o.transform) + ";")
-        if k in ("ocsFromWcs", "ocsToWcs", "ocsAxes"):
+        if k in ("ocsFromWcs", "ocsToWcs", "ocsAxes", "ocsPointsToWcs", "ocsPointsFromWcs"):
             o = U.OCS()
             o.transform = a[0] == "T"
             o.matrix = mat(a[1])
+            if k == "ocsPointsToWcs": return _ok([c for v in o.points_to_wcs(lst(a[2], v3)) for c in v])
+            if k == "ocsPointsFromWcs": return _ok([c for v in o.points_from_wcs(lst(a[2], v3)) for c in v])
             if k == "ocsFromWcs": return _ok(o.from_wcs(v3(a[2])))
             if k == "ocsToWcs": return _ok(o.to_wcs(v3(a[2])))
             return _ok(list(o.ux) + list(o.uy) + list(o.uz))
@@ -708,6 +739,15 @@ def impl_value(tw: Twin, kernel: str, a: list, ucsmod=None) -> str:
                 return _ok(getattr(U.UCS, FROM_AXIS[k])(v3(a[0]), v3(a[1]), v3(a[2])).matrix)
             u = ucs_of(a[0])
             if k == "ucsIsCartesian": return "ok " + _b(u.is_cartesian)
+            if k == "ucsToOcsAngleVec":  # a = [m, c, s, angle]: the vector, checked to carry the angle to_ocs_angle_rad/_deg return
+                ang = float(Fr(a[3]))
+                d = u.ucs_direction_to_ocs_direction(V3.from_angle(ang))
+                ra, da = u.to_ocs_angle_rad(ang), u.to_ocs_angle_deg(math.degrees(ang))
+                dd = u.ucs_direction_to_ocs_direction(V3.from_deg_angle(math.degrees(ang)))
+                if abs(math.remainder(ra - d.angle, math.tau)) > 1e-12 or abs(math.remainder(da - dd.angle_deg, 360.0)) > 1e-9 \
+                        or abs(math.remainder(math.radians(da) - ra, math.tau)) > 1e-9:
+                    return "ok angle-inconsistent"
+                return _ok(d)
             if k in ("ucsRotateLocalX", "ucsRotateLocalY", "ucsRotateLocalZ"):  # a = [m, c, s, angle]
                 return _ok(getattr(u, "rotate_local_" + k[-1].lower())(float(Fr(a[3]))).matrix)
             if k == "ucsRotate": return _ok(u.rotate(v3(a[1]), float(Fr(a[4]))).matrix)  # a = [m, axis, c, s, angle]
@@ -761,7 +801,7 @@ def impl_value(tw: Twin, kernel: str, a: list, ucsmod=None) -> str:
 FROM_AXIS = {"ucsFromXaxisXY": "from_x_axis_and_point_in_xy", "ucsFromXaxisXZ": "from_x_axis_and_point_in_xz",
              "ucsFromYaxisXY": "from_y_axis_and_point_in_xy", "ucsFromYaxisYZ": "from_y_axis_and_point_in_yz",
              "ucsFromZaxisXZ": "from_z_axis_and_point_in_xz", "ucsFromZaxisYZ": "from_z_axis_and_point_in_yz"}
-STATE_KERNELS = set(FROM_AXIS) | {"ucsIsCartesian", "ucsRotateLocalX", "ucsRotateLocalY", "ucsRotateLocalZ", "ucsRotate",
+STATE_KERNELS = set(FROM_AXIS) | {"ucsToOcsAngleVec", "ucsIsCartesian", "ucsRotateLocalX", "ucsRotateLocalY", "ucsRotateLocalZ", "ucsRotate",
                  "ucsTransformU", "ucsShift", "ucsMoveto", "ucsCopy", "ucsToOcs", "ucsDirToOcs", "ucsPointsToOcs",
                  "ucsPointsFromWcs", "ucsAxes", "ucsFrames", "ucsWcsFrame", "ucsSeqShiftToOcs", "ucsSeqMovetoToOcs", "ucsSeqShiftToWcs",
                  "ocsSeqRoundtrip", "ucsSeqTransformToOcs", "ucsSeqTransformDirToOcs", "ucsSeqTransformToWcs",
@@ -788,7 +828,7 @@ def _construct3d(tw):
     return cache[tw.name]
 
 
-UCS_KERNELS = STATE_KERNELS | {"ocsInit", "ocsFromWcs", "ocsToWcs", "ocsAxes", "ucsInitXYZ", "ucsInitXY", "ucsInitXZ", "ucsInitYZ",
+UCS_KERNELS = STATE_KERNELS | {"ocsPointsToWcs", "ocsPointsFromWcs", "ocsInit", "ocsFromWcs", "ocsToWcs", "ocsAxes", "ucsInitXYZ", "ucsInitXY", "ucsInitXZ", "ucsInitYZ",
                "ucsToWcs", "ucsFromWcs", "ucsDirectionToWcs", "ucsDirectionFromWcsU", "ucsPointsToWcs"}
 # arguments that are only for the implementation (angle next to its cos/sin), dropped from the Lean request
 IMPL_ONLY_ARGS = {"basicT": 1, "ucsRotateLocalX": 1, "ucsRotateLocalY": 1, "ucsRotateLocalZ": 1, "ucsRotate": 1, "xRotate": 1, "yRotate": 1, "zRotate": 1, "axisRotate": 1, "xyzRotate": 1, "shearXY": 1}
@@ -1141,6 +1181,10 @@ def exact_cases(ctx, twin: str):
         yield "translate", [frs(g.v3(e))], None, True
         yield "ucs", [frs(g.v3(0)), frs(g.v3(0)), frs(g.v3(0)), frs(g.v3(e))], None, True
         yield "from2d", [frs([g.dy(0) for _ in range(6)])], None, True
+        # perspective_projection: bit-exact when the three differences are powers of two (or zero: ZeroDivisionError)
+        l_, b_, n_ = g.dy(0, 5), g.dy(0, 5), g.dy(0, 5)
+        dd = lambda: Fr(0) if r.random() < 0.08 else Fr(2) ** r.choice([-2, 0, 1, 3]) * r.choice([-1, 1])
+        yield "perspective", [frs([l_, l_ + dd(), b_ + dd(), b_, n_, n_ + dd()])], None, True
         mv = r.choice([g.v3(e), (0, 0, 0), (Fr(1, 10**13), 0, Fr(-1, 10**13)), (0, Fr(1, 10**11), 0)])
         yield "basicT0", [frs(mv), frs(s3)], None, True
         ang = r.choice([0.0, 0.5, 1.0, -2.0, 3.0, math.pi / 2, math.pi, -math.pi / 3, 1e-9, 100.0, r.uniform(-7, 7)])
@@ -1157,6 +1201,8 @@ def exact_cases(ctx, twin: str):
         for k in ("ucsToWcs", "ucsFromWcs", "ucsDirectionToWcs", "ucsDirectionFromWcsU"):
             yield k, [ms, frs(v)], None, nt
         yield "ucsPointsToWcs", [ms, ";".join(frs(t_) for t_ in vs)], None, len(vs) > 0
+        for k in ("ocsPointsToWcs", "ocsPointsFromWcs"):
+            yield k, [t, ms, ";".join(frs(t_) for t_ in vs)], None, len(vs) > 0
         # session 3: mutators and regenerated method sequences of the UCS object (one real object per case)
         q, d = g.v3(e), g.v3(e)
         yield "ucsTransformU", [ms, frs(o)], None, True
@@ -1189,6 +1235,31 @@ def tolerant_cases(ctx, twin: str):
         m = g.matrix()
         v = g.v3(0)
         yield "transformDirectionN", [frs(m), frs(v)], None, _tolrel(42, Fr(1, 4)), _nz(v)
+        # growth round 2
+        amax_ = max([abs(x) for x in a + b] + [Fr(1, 2**60)])
+        if any(a) and any(b):  # cosine of angle_between: acos is ill conditioned at +-1, the cosine is compared (abs 2^-40)
+            yield "v3cosBetween", [frs(a), frs(r.choice([b, b, a, tuple(-x for x in a), tuple(3 * x for x in a)]))], None, "abs:" + P2(40), _nz(a)
+        pa, pb = g.v2(e), g.v2(e)
+        if any(pa) and any(pb):
+            yield "v2cosBetween", [frs(pa), frs(r.choice([pb, pb, pa, tuple(-x for x in pa)]))], None, "abs:" + P2(40), _nz(pa)
+        ang = r.choice([0.0, math.pi / 2, -1.0, 2.5, r.uniform(-7, 7)])
+        csr = [fr(Fr(math.cos(ang))), fr(Fr(math.sin(ang)))]
+        va = r.choice([a, a, (0, 0, a[2]), (a[0], 0, a[2])])
+        yield "v3rotate", [frs(va)] + csr, [frs(va)] + csr + [fr(ang)], _tolrel(44, amax_), _nz(va)
+        yield "v2rotate", [frs(pa)] + csr, [frs(pa)] + csr + [fr(ang)], _tolrel(44, max([abs(x) for x in pa] + [Fr(1, 2**60)])), _nz(pa)
+        if twin == "py":
+            yield "v3rotateDeg", [frs(va)] + csr, [frs(va)] + csr + [fr(ang)], _tolrel(40, amax_), _nz(va)
+            yield "v2rotateDeg", [frs(pa)] + csr, [frs(pa)] + csr + [fr(ang)], _tolrel(40, max([abs(x) for x in pa] + [Fr(1, 2**60)])), _nz(pa)
+        fr6 = [g.dy(0, 6) for _ in range(6)]
+        if r.random() < 0.2:
+            fr6[r.choice([1, 3, 5])] = fr6[r.choice([0, 2, 4])] if r.random() < 0.5 else fr6[0]
+            if r.random() < 0.5:
+                fr6[1] = fr6[0]
+        yield "perspective", [frs(fr6)], None, _tolrel(48, Fr(1, 2**20)), True
+        fov = r.choice([math.pi / 2, 1.0, 0.3, r.uniform(0.1, 3.0)])
+        asp, nr = abs(g.dy(0, 5, nonzero=True)), abs(g.dy(0, 5, nonzero=True))
+        la = [fr(asp), fr(nr), fr(nr + abs(g.dy(2, 5, nonzero=True))), fr(Fr(math.tan(fov / 2)))]
+        yield "perspectiveFov", la, la + [fr(fov)], _tolrel(44, Fr(1, 2**20)), True
         # session 3
         ang = r.choice([0.0, math.pi / 2, -1.0, r.uniform(-7, 7)])
         kl = g.dy(r.choice([-3, 0, 3]), 6)
@@ -1292,6 +1363,9 @@ def tolerant_cases(ctx, twin: str):
         ps = [g.v3(0) for _ in range(r.randint(0, 3))]
         yield "ucsPointsToOcs", [ms, ";".join(frs(t_) for t_ in ps)], None, _tolrel(38, fl(m, [x for t_ in ps for x in t_])), len(ps) > 0
         yield "ucsCopy", [ms], None, _tolrel(44, max([abs(x) for x in m[12:15]] + [Fr(1, 4)])), True
+        ang = r.choice([0.0, 0.5, -2.0, math.pi / 2, r.uniform(-3.1, 3.1)])
+        la = [ms, fr(Fr(math.cos(ang))), fr(Fr(math.sin(ang)))]
+        yield "ucsToOcsAngleVec", la, la + [fr(ang)], _tolrel(38, fl(m, (1, 1, 0))), nt
         yield "ucsFrames", [ms, frs(p)], None, "abs:0", True
         yield "ucsSeqShiftToOcs", [ms, frs(q), frs(d), frs(p)], None, _tolrel(38, fl(m, p, d)), nt
         yield "ucsSeqMovetoToOcs", [ms, frs(q), frs(d), frs(p)], None, _tolrel(38, fl(m, p, d)), nt
@@ -1472,7 +1546,7 @@ def run_history(tw: Twin, U, plan: dict) -> str:
             v.matrix *= M.scale(2.0)
             out.append("fk~")
             continue
-        if st[0] in ("cp", "rx", "ry", "rz"):  # continue the history on the NEW object (copy / local rotation)
+        if st[0] in ("cp", "rx", "ry", "rz", "ro"):  # continue the history on the NEW object (copy / rotation)
             rows = [state[0:3], state[4:7], state[8:11]]
             if any(not any(rw) for rw in rows) or any(abs(t) > 1e100 for rw in rows for t in rw):
                 continue  # a null axis raises in the constructor: not part of the histories
@@ -1482,6 +1556,13 @@ def run_history(tw: Twin, U, plan: dict) -> str:
             if st[0] == "cp":
                 u = u.copy()
                 out.append("cp~")
+            elif st[0] == "ro":  # st = ["ro", "ax,ay,az,c,s", angle]: rotation about an arbitrary WCS axis; the origin stays
+                vals = parse_list(st[1])
+                try:
+                    u = u.rotate(V3(*vals[:3]), float(Fr(st[2])))
+                except ZeroDivisionError:
+                    continue
+                out.append("ro~" + st[1])
             else:
                 ang = float(Fr(st[2]))
                 try:
@@ -1614,9 +1695,13 @@ def history_plans(ctx, twin: str):
                 steps.append(["fk"])
             elif c < 0.94:
                 steps.append(["cp"])
-            else:
+            elif c < 0.97:
                 ang = r.choice([math.pi / 2, 1.0, -2.5, r.uniform(-3, 3)])
                 steps.append([r.choice(["rx", "ry", "rz"]), frs([Fr(math.cos(ang)), Fr(math.sin(ang))]), fr(ang)])
+            else:
+                ang = r.choice([math.pi / 2, 1.0, -2.5, r.uniform(-3, 3)])
+                axis = r.choice([(0, 0, 1), (1, 0, 0), (1, 2, 2), (I(), I(), I(1, 3))])
+                steps.append(["ro", frs(list(axis) + [Fr(math.cos(ang)), Fr(math.sin(ang))]), fr(ang)])
             steps += [query() for _ in range(r.randint(0, 2))]
         steps += [query("ucsToOcs"), query("ucsToWcs"), query("copy")]
         yield {"m0": frs(start()), "steps": steps}
@@ -2495,6 +2580,20 @@ def oracle_ucs_objects(acc, tw, U, g, n):
                          dict(rep, k=[k1, k2, k3], p=list(p)))
         if not (u3.ux.isclose(u2.ux, abs_tol=1e-12) and u3.uy.isclose(u2.uy, abs_tol=1e-12) and u3.uz.isclose(u2.uz, abs_tol=1e-12)):
             acc.fail(f"ucs/all-axes-vs-two-axes/{tw.name}/{_short(ax)}", "UCS(o, ux, uy, uz) and UCS(o, ux, uy) give different frames for the same axes", rep)
+        # growth round 2: rotate_local_z composes by angle addition; rotate() about any axis keeps the origin; to_ocs_angle_*
+        # is the polar angle of the converted direction vector
+        al, be = r.uniform(-3, 3), r.uniform(-3, 3)
+        ra, rb = u0.rotate_local_z(al).rotate_local_z(be), u0.rotate_local_z(al + be)
+        if not (ra.ux.isclose(rb.ux, abs_tol=1e-12) and ra.uy.isclose(rb.uy, abs_tol=1e-12) and ra.uz.isclose(u0.uz, abs_tol=1e-12)
+                and ra.origin.isclose(u0.origin, abs_tol=0)):
+            acc.fail(f"ucs/rotate_local_z-compose/{tw.name}/{al:.3g}", f"rotate_local_z({al}).rotate_local_z({be}) differs from rotate_local_z({al + be}) or moved the origin", dict(rep, angles=[al, be]))
+        rr = u0.rotate(tuple(w), al)
+        if tuple(rr.origin) != tuple(u0.origin) or not rr.is_cartesian:
+            acc.fail(f"ucs/rotate-origin/{tw.name}/{_short(o)}", f"UCS(origin={tuple(u0.origin)}).rotate({tuple(w)}, {al}).origin = {tuple(rr.origin)}", dict(rep, angle=al))
+        dv = u0.ucs_direction_to_ocs_direction(V3.from_angle(al))
+        if abs(math.remainder(u0.to_ocs_angle_rad(al) - dv.angle, math.tau)) > 1e-12 or \
+                abs(math.remainder(math.radians(u0.to_ocs_angle_deg(math.degrees(al))) - dv.angle, math.tau)) > 1e-9:
+            acc.fail(f"ucs/to_ocs_angle/{tw.name}/{al:.3g}", "to_ocs_angle_rad/deg is not the polar angle of ucs_direction_to_ocs_direction(from_angle)", dict(rep, angle=al))
         # in-place mutators on one object
         u = U.UCS.from_x_axis_and_point_in_xy(o, ax, pt)
         ux, uy, uz, org = u.ux, u.uy, u.uz, u.origin
